@@ -47,6 +47,9 @@ def gen_case(rng, flavor=None, size=None):
                     body.append(['missingblob', s])
             if rng.random() < 0.12:
                 body.insert(rng.randrange(len(body) + 1), ['fabort'])
+            if rng.random() < 0.15:
+                # meanwhile a second blob storage of the process commits or aborts a blob transaction
+                body.insert(rng.randrange(len(body) + 1), ['other', rng.choice(['finish', 'finish', 'abort'])])
             end = rng.random()
             ops.append(['begin'])
             ops += body
@@ -74,6 +77,8 @@ def gen_case(rng, flavor=None, size=None):
                 committed |= {b[1] for b in body if b[0] == 'blob'}
                 ntx += 1
         elif r < 0.9 and ntx > 0:
+            if flavor == 'fs' and rng.random() < 0.3:
+                ops.append(['failpack', rng.choice([0, 1, 1])])      # abandoned pack (disk full), then …
             ops.append(['pack', rng.randrange(0, 6), rng.choice([0, 1, 1])])
         else:
             ops.append(['fabort'])
@@ -145,6 +150,7 @@ def run_case(case, root, ck=None):
     nontrivial = False
     nomodel = [False]
     dupkeys = set()
+    others = [0]
     with clock.scripted():
         env = Env(os.path.join(root, 'db'), flavor, keep_old=case.get('keep_old', False), pack_gc=True)
         S = env.storage
@@ -402,6 +408,30 @@ def run_case(case, root, ck=None):
                       S.tpc_abort(TransactionMetaData())
                       foreign_seen = True
                       check('foreign-abort')
+                  elif kind == 'other':
+                      # a complete two-phase commit with a blob on a SECOND blob storage of this process, while our
+                      # transaction is (or is not) in progress: the two must not share any state (dirty list)
+                      n = env.other_transaction(root, 'wrap' if flavor == 'fs' else 'fs', op[1])
+                      others[0] += 1 if op[1] == 'finish' else 0
+                      if n != others[0]:
+                          bad('C13:other-storage-blob-files', 'the second storage holds %d blob files for %d committed '
+                              'revisions' % (n, others[0]))
+                      check('other-storage')
+                  elif kind == 'failpack':
+                      if txn is not None or not L.txns or flavor != 'fs':
+                          continue
+                      tt = TimeStamp(p64(L.txns[-1][0])).timeTime() + 0.5
+                      env.fail_next_pack()
+                      try:
+                          S.pack(tt, referencesf, gc=bool(op[1]))
+                          cnt('failpack:nothing-to-pack')
+                      except OSError:
+                          cnt('failpack:abandoned')
+                      except Exception as e:
+                          cnt('failpack:' + errname(e))
+                      finally:
+                          env.clear_pack_failure()
+                      check('pack-failed')            # nothing was packed: nothing may have changed
                   elif kind == 'pack':
                       if txn is not None or not L.txns:
                           continue
